@@ -42,7 +42,7 @@ def gen_config(rng, max_vars, rep_choices, allow_none_name=False):
         unpacked = {}
     fixed = {}
     for nm in rng.sample(["nt", "scen", "taps"], rng.choice([0, 1, 1, 2])):
-        fixed[nm] = rng.choice([2, 7, "urban", [1, 2], 0.5, {"__nd__": [1.5, 2.5, 4.0]}])
+        fixed[nm] = rng.choice([2, 7, "urban", [1, 2], 0.5, {"__nd__": [1.5, 2.5, 4.0]}, [[1, 2], [3]], None, True])    # incl. a ragged nested list
     tmpl = ["res"]
     scalars = [k for k, v in fixed.items() if not isinstance(v, (list, dict))]
     if scalars and rng.random() < 0.5:
@@ -139,7 +139,14 @@ def mutate_config(rng, cfg):
         if isinstance(old, dict):
             c2["fixed"][k] = {"__nd__": [old["__nd__"][0]] + [x + 1 for x in old["__nd__"][1:]]}     # only later elements differ
         else:
-            c2["fixed"][k] = (old + 1) if isinstance(old, (int, float)) else ([9] if isinstance(old, list) else old + "_x")
+            if old is None or isinstance(old, bool):
+                c2["fixed"][k] = 5
+            elif isinstance(old, (int, float)):
+                c2["fixed"][k] = old + 1
+            elif isinstance(old, list):
+                c2["fixed"][k] = [[1, 2], [4]] if old and isinstance(old[0], list) else [9]     # ragged list: only the last element differs
+            else:
+                c2["fixed"][k] = old + "_x"
     elif kind == "unpacked_value":
         k = rng.choice(sorted(c2["unpacked"]))
         vals = c2["unpacked"][k]["values"]
